@@ -17,6 +17,7 @@ import (
 	"github.com/anishathalye/porcupine"
 
 	"verifharness/benc"
+	"verifharness/census"
 	"verifharness/evid"
 	"verifharness/gen"
 	"verifharness/ref"
@@ -142,7 +143,13 @@ func c13server(c *evid.Ctx) {
 				break
 			}
 			if time.Now().After(deadline) {
-				c.Inconclusive(fmt.Sprintf("server race scenario did not finish: %d of %d operations returned; grants %v", nh, nIn+nApi, gl))
+				// Nothing waits at the gate, yet operations have not returned: are they parked for good?
+				stuck := census.Stuck(census.ServeLoop, 2*time.Second)
+				if len(stuck) > 0 {
+					c.Violation("put-or-get-never-returns", fmt.Sprintf("inbound-vs-local scenario: %d of %d operations returned, nothing is waiting at the store gate, %d library goroutines are parked for good; grants %v\n%s", nh, nIn+nApi, len(stuck), gl, truncateS(census.Dump(stuck), 4000)), nil)
+				} else {
+					c.Inconclusive(fmt.Sprintf("server race scenario did not finish: %d of %d operations returned; grants %v", nh, nIn+nApi, gl))
+				}
 				break
 			}
 			time.Sleep(30 * time.Microsecond)
